@@ -13,6 +13,7 @@ package main
 // Nothing here changes what is analysed: all facts are still derived from the current tree's SSA.
 
 import (
+	"go/types"
 	"iter"
 	"reflect"
 
@@ -179,12 +180,52 @@ func crossResult(v ssa.Value) ssa.Value {
 		return nil
 	}
 	var one ssa.Value
+	same := true
 	for _, l := range leaves {
 		if one == nil {
 			one = l
 		} else if l != one {
-			return nil
+			same = false
 		}
+	}
+	if same {
+		return one
+	}
+	// (T, error) helpers: what is returned together with a non-nil error is not used by a caller that checks the error;
+	// consider the success returns only
+	res := f.Signature.Results()
+	idx := 0
+	if ex, isEx := v.(*ssa.Extract); isEx {
+		idx = ex.Index
+	}
+	n := res.Len()
+	if n < 2 || idx == n-1 || types.TypeString(res.At(n-1).Type(), nil) != "error" {
+		return nil
+	}
+	one = nil
+	okAll := true
+	allInstrsLocal(f, func(in ssa.Instruction) {
+		ret, isR := in.(*ssa.Return)
+		if !isR || len(ret.Results) != n {
+			return
+		}
+		if !isNilConst(ret.Results[n-1]) {
+			if nn, _ := nonNilError(ret.Results[n-1], ret, 0); nn {
+				return // error return
+			}
+			okAll = false
+			return
+		}
+		for _, l := range phiLeaves(ret.Results[idx]) {
+			if one == nil {
+				one = l
+			} else if l != one {
+				okAll = false
+			}
+		}
+	})
+	if !okAll {
+		return nil
 	}
 	return one
 }
